@@ -27,13 +27,16 @@ func init() {
 				"reply, and that function accepts only replies whose ID, question count, question type and (case-insensitively) " +
 				"name equal the request's.",
 			NotCovered: "the up/down state machine over all fault sequences and the timing of the backoff (run-time quantities).",
-			Rules: map[string]string{"C17-R12": "UpstreamPlain.getBuffer and putBuffer map each network to the same buffer pool", "C17-R11": "a buffer that is both sent and received into is filled again before it is sent a second time (the retry after a failed exchange sends the query, not the remains of a partial response)", "C17-R10": "isExpectedConnErr is net.Error-or-EOF on non-nil errors; the forward metrics listener tolerates the nil response of a failed exchange", "C17-R9": "the fail-over decision classifies exchange errors with the same helper as the retry (net.Error or io.EOF)", "C17-RC": "class rules (error chains, shadowed results, character classes, crossed arguments, pool constructors, array pools, loop completeness, loop-carried buffers, replacing setters, complete clones, Grow arithmetic, pooled-buffer escape, sorted searches, fresh decode targets, per-iteration objects, whole-message copies, codec guards) over the packages this property rests on", "C17-R8": "every fmt.Errorf that reports an error value wraps it with %w (the fail-over decision classifies causes with errors.As)", "C17-R7": "upstream connection pool: Get hands out only connections that passed the idle-expiry test (expired ones are closed), Put queues or closes", "C17-R1": "ServeDNS fail-over table", "C17-R2": "who replaces the active set, under which lock and gate",
+			Rules: map[string]string{"C17-R13": "NewUpstreamPlain: the buffers for exchanges over TCP hold a whole DNS message (at least 65535 bytes: readMsg slices the buffer to the length the upstream announces), the UDP buffers at least the EDNS size the forwarder can be offered (4096)", "C17-R12": "UpstreamPlain.getBuffer and putBuffer map each network to the same buffer pool", "C17-R11": "a buffer that is both sent and received into is filled again before it is sent a second time (the retry after a failed exchange sends the query, not the remains of a partial response)", "C17-R10": "isExpectedConnErr is net.Error-or-EOF on non-nil errors; the forward metrics listener tolerates the nil response of a failed exchange", "C17-R9": "the fail-over decision classifies exchange errors with the same helper as the retry (net.Error or io.EOF)", "C17-RC": "class rules (error chains, shadowed results, character classes, crossed arguments, pool constructors, array pools, loop completeness, loop-carried buffers, replacing setters, complete clones, Grow arithmetic, pooled-buffer escape, sorted searches, fresh decode targets, per-iteration objects, whole-message copies, codec guards) over the packages this property rests on", "C17-R8": "every fmt.Errorf that reports an error value wraps it with %w (the fail-over decision classifies causes with errors.As)", "C17-R7": "upstream connection pool: Get hands out only connections that passed the idle-expiry test (expired ones are closed), Put queues or closes", "C17-R1": "ServeDNS fail-over table", "C17-R2": "who replaces the active set, under which lock and gate",
 				"C17-R3": "health probe state table", "C17-R5": "configuration wiring: main servers, fallback servers and health-check settings of the configuration reach the handler's fields of the same meaning",
 				"C17-R4": "reply validation tables"},
 		}})
 }
 
 func runC17(c *an.Ctx) {
+	// ---- R13: the forwarder's buffer pools are large enough for their transport
+	c.Floor("C17-R13", 2)
+	c17BufferPools(c, "C17-R13")
 	// ---- R12: the buffer pools of an upstream: taken from and returned to the pool of the same network
 	c.Floor("C17-R12", 1)
 	c17BufferPoolsAgree(c, "C17-R12")
@@ -1155,4 +1158,43 @@ func c17BufferPoolsAgree(c *an.Ctx, rule string) {
 	sort.Strings(diff)
 	c.Check(len(diff) == 0 && len(put) == len(get), rule, key, token.NoPos, fmt.Sprintf("%d networks, each with one pool on both sides", len(get)),
 		strings.Join(diff, "; ")+": a buffer of one size class enters the pool of the other, and the next exchange on that network reads a longer reply into it")
+}
+
+// c17BufferPools: readMsg reads a TCP response into buf[:length] with the
+// length the upstream announced (up to 65535): a TCP buffer pool made with a
+// smaller size makes every larger answer a slice-bounds panic, i.e. a failed
+// exchange that takes the upstream out of rotation.  The pools stored into
+// UpstreamPlain.tcpBufs / udpBufs are created with constants of at least
+// dns.MaxMsgSize / 4096.
+func c17BufferPools(c *an.Ctx, rule string) {
+	minSize := map[string]int64{"tcpBufs": 65535, "udpBufs": 4096}
+	seen := map[string]bool{}
+	stores := append(c.Prog.FieldStores("dnsserver/forward.UpstreamPlain", "tcpBufs"), c.Prog.FieldStores("dnsserver/forward.UpstreamPlain", "udpBufs")...)
+	for _, fs := range stores {
+		fn := fs.Store.Parent()
+		if c.IsTestFile(fn.Pos()) {
+			continue
+		}
+		_, field, _, _ := an.FieldOf(fs.Store.Addr)
+		key := an.FnKey(fn) + ": pool " + field + " holds a whole message of its transport"
+		seen[field] = true
+		c.Analysed(an.FnKey(fn))
+		call, ok := fs.Store.Val.(*ssa.Call)
+		if !ok || len(call.Call.Args) != 1 {
+			c.Und(rule, key, fs.Store.Pos(), "the stored pool is not the result of a one-argument constructor call")
+			continue
+		}
+		k, ok := call.Call.Args[0].(*ssa.Const)
+		if !ok {
+			c.Und(rule, key, fs.Store.Pos(), "the pool size is not a constant")
+			continue
+		}
+		c.Check(k.Int64() >= minSize[field], rule, key, fs.Store.Pos(), fmt.Sprintf("size %d >= %d", k.Int64(), minSize[field]),
+			fmt.Sprintf("the pool is created with size %d, below the %d bytes a response on that transport can have: readMsg slices the buffer to the announced length, so a larger answer panics or is cut, and the upstream is counted as failed", k.Int64(), minSize[field]))
+	}
+	for f := range minSize {
+		if !seen[f] {
+			c.Und(rule, "pool "+f, token.NoPos, "no store into UpstreamPlain.%s found", f)
+		}
+	}
 }
